@@ -8,6 +8,7 @@ package c10
 // the client identifies them).
 
 import (
+	"crypto/sha256"
 	"fmt"
 	"math/big"
 	"math/rand"
@@ -44,6 +45,7 @@ type node struct {
 	parent   *node
 	depth    int
 	children []*node
+	state    int  // index into the tree's sequence of world states (state-sequence root mode)
 	tried    bool // submitted at least once in topological position
 	orphaned bool // submitted once before its parent
 }
@@ -185,7 +187,11 @@ type judgement struct {
 func (m *model) judge(h *ethtypes.Header, bt uint64) judgement {
 	height := h.Height.RevisionHeight
 	ph := common.BytesToHash(h.ParentHash)
-	if height == 0 || h.Height.RevisionNumber != 0 {
+	if h.Height.RevisionNumber != 0 {
+		// the revision number is an XIBC wrapper field, not part of the Ethereum header (it is not hashed): not pinned
+		return judgement{v: either, rule: "revision-number-nonzero"}
+	}
+	if height == 0 {
 		return judgement{v: mustReject, rule: "parent/not-stored"}
 	}
 	p := m.get(ph, height-1)
@@ -269,11 +275,15 @@ func errSlug(err error) string {
 	if i := strings.Index(s, ": "); i >= 0 && strings.HasPrefix(s, "cannot update client") {
 		s = s[i+2:]
 	}
+	// keep the innermost message only (sdkerrors appends ": <registered error>")
+	if i := strings.Index(s, ": "); i > 0 {
+		s = s[:i]
+	}
 	s = reHex.ReplaceAllString(s, " ")
 	s = reNum.ReplaceAllString(s, " ")
 	s = strings.Trim(reSep.ReplaceAllString(s, "-"), "-")
-	if len(s) > 56 {
-		s = s[:56]
+	if len(s) > 64 {
+		s = s[:64]
 	}
 	return strings.ToLower(s)
 }
@@ -284,6 +294,16 @@ type genOpts struct {
 	emptyBlockProb float64 // child keeps the parent's state root (clique: no block reward)
 	siblingRoot    float64 // child copies the state root of a sibling
 	dtMax          int
+	// stateSeq: the state root is a function of how many of the pending transactions have been
+	// executed (clique: no block reward, so two branches that included the same transactions at
+	// different heights share state roots at some heights and differ at others).
+	stateSeq bool
+	salt     []byte
+}
+
+func (o genOpts) seqRoot(state int) []byte {
+	h := sha256.Sum256(append(append([]byte{}, o.salt...), byte(state), byte(state>>8)))
+	return h[:]
 }
 
 func rbytes(rng *rand.Rand, n int) []byte {
@@ -304,7 +324,7 @@ func cloneHdr(h ethtypes.Header) ethtypes.Header {
 // genRoot draws the header the client is created from.
 func genRoot(rng *rand.Rand) ethtypes.Header {
 	heights := []uint64{1, 8, 9, 98, 99, 998, 9999, 1 + uint64(rng.Intn(100000)), 10000000 + uint64(rng.Intn(1000000))}
-	limits := []uint64{5000 + uint64(rng.Intn(40)), 8000000, 30000000, 12345678, 1 << 62, maxInt63 - uint64(rng.Intn(3))}
+	limits := []uint64{5000 + uint64(rng.Intn(4)), 5000 + uint64(rng.Intn(4)), 8000000, 30000000, 12345678, 1 << 62, maxInt63 - uint64(rng.Intn(3))}
 	fees := []*big.Int{big.NewInt(0), big.NewInt(1), big.NewInt(7), big.NewInt(8), big.NewInt(1000000000), big.NewInt(100000000000),
 		new(big.Int).Lsh(big.NewInt(1), 64), new(big.Int).Add(new(big.Int).Lsh(big.NewInt(1), 200), big.NewInt(int64(rng.Intn(1000))))}
 	gl := limits[rng.Intn(len(limits))]
@@ -369,8 +389,9 @@ func genGasLimit(rng *rand.Rand, pl uint64) uint64 {
 	return pl
 }
 
-// genChild builds a header that satisfies every rule relative to p.
-func genChild(rng *rand.Rand, p *node, o genOpts) ethtypes.Header {
+// genChild builds a header that satisfies every rule relative to p (second
+// result: the child's world-state index).
+func genChild(rng *rand.Rand, p *node, o genOpts) (ethtypes.Header, int) {
 	gl := genGasLimit(rng, p.hdr.GasLimit)
 	fee, _ := refBaseFee(&p.hdr)
 	dt := uint64(1)
@@ -384,6 +405,11 @@ func genChild(rng *rand.Rand, p *node, o genOpts) ethtypes.Header {
 		root = append([]byte{}, p.hdr.Root...)
 	case x < o.emptyBlockProb+o.siblingRoot && len(p.children) > 0:
 		root = append([]byte{}, p.children[rng.Intn(len(p.children))].hdr.Root...)
+	}
+	state := p.state
+	if o.stateSeq {
+		state += []int{0, 0, 1, 1, 2}[rng.Intn(5)]
+		root = o.seqRoot(state)
 	}
 	extra := rbytes(rng, rng.Intn(33))
 	if rng.Intn(6) == 0 {
@@ -407,7 +433,7 @@ func genChild(rng *rand.Rand, p *node, o genOpts) ethtypes.Header {
 		Height: clienttypes.NewHeight(0, p.height()+1), GasLimit: gl, GasUsed: genGasUsed(rng, gl),
 		Time: p.hdr.Time + dt, Extra: extra, MixDigest: rbytes(rng, 32), Nonce: rng.Uint64() >> uint(rng.Intn(64)),
 		BaseFee: fee.Bytes(),
-	}
+	}, state
 }
 
 // tree is a generated header tree.
@@ -417,8 +443,8 @@ type tree struct {
 }
 
 func (t *tree) addChild(rng *rand.Rand, p *node, o genOpts) *node {
-	h := genChild(rng, p, o)
-	n := &node{id: fmt.Sprintf("%s.%d", p.id, len(p.children)), hdr: h, parent: p, depth: p.depth + 1}
+	h, st := genChild(rng, p, o)
+	n := &node{id: fmt.Sprintf("%s.%d", p.id, len(p.children)), hdr: h, parent: p, depth: p.depth + 1, state: st}
 	n.hash = n.hdr.Hash()
 	p.children = append(p.children, n)
 	t.nodes = append(t.nodes, n)
@@ -428,6 +454,9 @@ func (t *tree) addChild(rng *rand.Rand, p *node, o genOpts) *node {
 // genTree: branching 1..3, depth <= 12, size nodes (plus the root).
 func genTree(rng *rand.Rand, size int, o genOpts) *tree {
 	g := &node{id: "g", hdr: genRoot(rng)}
+	if o.stateSeq {
+		g.hdr.Root = o.seqRoot(0)
+	}
 	g.hash = g.hdr.Hash()
 	t := &tree{root: g, nodes: []*node{g}}
 	extend := 0.35 + 0.5*rng.Float64() // how chain-like the tree is
